@@ -891,6 +891,8 @@ func c07Inputs(c *Check) {
 	c07FallbackOnFilteredRecords(c, "R16")
 	c07VersionFilterIsPrefix(c, "R16")
 	c06BodyBlockListNeverShrinks(c, "R17")
+	c07ReportedIdentityNotFQDN(c, "R18")
+	c07AlignmentOnALabels(c, "R19")
 	// the quarantine action of the DMARC verdict is a flag on the message metadata: every target must hold the object it is set on
 	c.Rule("R9c", "the quarantine action reaches the targets: targets keep, and the pipeline hands them, the metadata object the verdict is written to (C06.R5, C06.R5c)", 2)
 	{
